@@ -57,7 +57,7 @@ def history(rng, case, idx):
     w = World(rng, case, max_plate=(8, 12) if (big and rng.random() < 0.1) else (4, 6))
     w.check_aliasing = False
     w.populate(n_containers=rng.randint(2, 3), n_plates=rng.randint(2, 3))
-    weights = {'cc': 1, 'cp': 5, 'pc': 4, 'pp': 7, 'remove': 3, 'fill': 4, 'observe': 0, 'newc': 0}
+    weights = {'cc': 1, 'cp': 5, 'pc': 4, 'pp': 7, 'remove': 3, 'fill': 4, 'observe': 0, 'newc': 0, 'kept': 3}
     for _ in range(rng.randint(10, 30)):
         w.history_step(weights)
 
